@@ -478,6 +478,9 @@ def add_faults(rng, sched):
     if not ro:
         return
     j = rng.choice(ro)
+    writers = [k for k in ro if sched['steps'][k]['variant'].split(':')[-1] in ('html', 'quiet', 'outfile', 'noembed', 'category', 'only', 'tags')]
+    if writers and rng.random() < 0.7:
+        j = rng.choice(writers)      # faults belong inside operations that have in-flight state: the report writers
     s = sched['steps'][j]
     r = rng.random()
     if r < 0.5:
@@ -493,7 +496,7 @@ def add_faults(rng, sched):
 def run_one(seed, i, tier, scratch):
     rng = util.rng_for(seed, ID, i)
     sched = gen_schedule(rng, i, tier)
-    if tier == 'thorough' and rng.random() < 0.5:
+    if rng.random() < (0.5 if tier == 'thorough' else 0.25):
         add_faults(rng, sched)
     res = execute(sched, scratch, seed, i)
     if i < 3:
@@ -532,6 +535,6 @@ def coverage(count, sets, samples, tier):
         'distinct_transitions': len(sets.get('transitions', ())),
         'faults_fired': {k[6:]: v for k, v in count.items() if k.startswith('fired.')},
         'exits': {k[5:]: v for k, v in count.items() if k.startswith('exit.')},
-        'fault_configuration': 'thorough tier only: half of the histories carry one crash/OSError/KeyboardInterrupt or one read fault '
-                               'inside a read-only command; counted separately above',
+        'fault_configuration': 'a quarter of the histories (thorough: half) carry one crash/OSError/KeyboardInterrupt or one read fault '
+                               'inside a read-only command; the oracle is the same (a fault cannot license a write elsewhere); counted above',
     }
